@@ -17,16 +17,19 @@ import (
 
 func init() {
 	register("C11", core.Spec{
-		Decides: "three structural clauses of \"the toolchain never crashes\": " +
+		Decides: "five structural clauses of \"the toolchain never crashes\": " +
 			"(E7) every recursion of the Go toolchain packages (lang/token, lang/parse, lang/ast, lang/check, lang/render, lang/generate, lang/builtin, internal/cgen, lib/dumbindent, lib/interval, cmd/wuffsfmt, cmd/wuffs-c; VTA call graph over a CHA seed, higher-order helpers resolved per call site) is either cut by a verified depth guard (a counter compared with a constant <= 65536 — a.MaxExprDepth / a.MaxTypeExprDepth / a.MaxBodyDepth — whose exceeded branch returns an ordinary error, which dominates every recursive call, and whose counter is incremented before every recursive call, never reset, and threaded unchanged through same-kind calls), or is listed in a frozen table as a walk over an already built AST (bounded by the parser's guards), a declaration-graph walk, or a walk over embedded templates; in lang/parse every cycle of the call graph must pass through a verified guard and every loop that re-wraps a loop-carried AST node must be guarded, so that both the parser's stack and the depth of the AST it returns are bounded; a new recursive function is reported; " +
 			"(P) the explicit panic(...) sites, and the os.Exit / log.Fatal* / log.Panic* / runtime.Goexit calls, that are reachable in the call graph from token.Tokenize, parse.Parse, parse.ParseExpr, check.Check, render.Render, generate.Do, cgen.Do and dumbindent.FormatBytes are exactly the frozen ones, each with its stated pre-condition, and the callers establish the pre-conditions that are structural (makeSliceLengthEqEq's argument is an arbitrary-precision decimal; andBothNonNeg / orBothNonNeg / andOneNegOneNonNeg receive split2Ways components only under their has-flag; bitMask receives BitLen() results); " +
-			"(L) lang/token compares against maxLine, maxTokenSize and maxID before the corresponding growth (line++, the token text handed to Map.Insert, the insertion of a new ID)",
-		NotDecided: "implicit panics (nil dereference, index out of range, failed type assertion, integer division by zero, out-of-memory) on malformed input — including the `iterate (x)(…)` nil dereference the property text mentions; termination of loops (infinite loops, e.g. in lib/dumbindent or fixed-point iterations in cgen's liveness); the value-level pre-conditions of the frozen panic sites in lib/interval (operand bit lengths <= 0xFFFF / 1<<30, livenesses of equal length); stack consumption per recursion level (a guard bounds the depth, not the bytes; the declaration-graph walk ast.tssVisit is bounded only by maxID = 2^20 distinct names); recursion that passes through standard-library callbacks; that the C emitted for accepted programs is accepted by the C compiler (clause 3 of DESIGN §4 C11 is implemented separately)",
+			"(L) lang/token compares against maxLine, maxTokenSize and maxID before the corresponding growth (line++, the token text handed to Map.Insert, the insertion of a new ID); " +
+			"(L.index) every index / slice expression on a local slice or string variable (the input src and its sub-strings) in token.Tokenize and the lang/token functions it calls (Unescape, hasPrefix, ID.IsIdent, ID.IsLiteral) whose index has the form v, v+c, v-c, len(s)-c or a constant is in range by a difference-constraint (zone) argument over go/cfg: the length tests, loop conditions, short-circuit operands and assignments passed on every path imply 0 <= index < len (0 <= lo <= hi <= len for slices); " +
+			"(N) the accessors of lang/ast that can return nil for a node the parser builds are derived from the constructor calls of lang/parse and lang/ast and must be covered by an explicit table (Assign.LHS, Expr.LHS/MHS/RHS, TypeExpr.ArrayLength/Receiver/Min/Max/Inner, If.ElseIf, Iterate.ElseIterate, IOManip.Arg1/HistoryPosition, Func.Out); in lang/parse every dereferencing method call on such a result is dominated by a nil test of that value, or by a discriminator test whose implication (TypeExpr.Decorator() != 0 ⇒ Inner() != nil) is verified from the same constructor calls",
+		NotDecided: "implicit panics other than the two clauses above: nil dereferences in lang/check, lang/render, lang/generate and internal/cgen (their uses of the may-be-nil accessors rest on operator tests whose implications were not verified, so N.lhs covers lang/parse only; `Bounds()` returns both bounds in an array and is not tracked; a may-be-nil value passed as an argument, stored in a field or returned is not followed), index expressions on arrays, maps, struct fields and with non-linear indices (listed as L.index.other), indexing outside lang/token, failed type assertions, integer division by zero, out-of-memory; slicing is judged against len, not cap; machine-integer overflow of index arithmetic is not modelled; termination of loops (infinite loops, e.g. in lib/dumbindent or fixed-point iterations in cgen's liveness); the value-level pre-conditions of the frozen panic sites in lib/interval (operand bit lengths <= 0xFFFF / 1<<30, livenesses of equal length); stack consumption per recursion level (a guard bounds the depth, not the bytes; the declaration-graph walk ast.tssVisit is bounded only by maxID = 2^20 distinct names); recursion that passes through standard-library callbacks; that the C emitted for accepted programs is accepted by the C compiler (clause 3 of DESIGN §4 C11 is implemented separately)",
 		Assumptions: []string{
 			"go/types, go/cfg, go/ssa and go/callgraph/{cha,vta} (x/tools v0.29.0) are sound for this code: no reflection or unsafe is used to call functions",
 			"error-return idioms enumerated in core.IsErrorReturn",
 			"the frozen tables (derived walkers, declaration-graph walks, panic pre-conditions) were each confirmed by reading the function; they are listed with their reason in every run's INFO lines",
 			"a Go stack of 1 GB accommodates 65536 nested frames of any function of the toolchain",
+			"N: As*() casts are applied according to Node.Kind (a write through an (*Iterate) view changes an Iterate); elements of node lists are never nil; a parse function's pointer result is used only after its error result was tested (summaries consider non-error returns)",
 		},
 	}, runC11)
 }
@@ -97,6 +100,20 @@ var c11Residual = map[string][2]string{
 
 func runC11(c *core.Ctx) {
 	k := newG(c, "./lang/...", "./internal/cgen", "./lib/dumbindent", "./cmd/wuffsfmt", "./cmd/wuffs-c")
+	if only := os.Getenv("C11_ONLY"); only != "" {
+		// development aid: run the syntax-level clauses alone. Never a verdict.
+		c.Undecided("dev", "C11_ONLY="+only, "the whole property is evaluated", "C11_ONLY is set: the call-graph clauses were skipped, so this run cannot pass")
+		if strings.Contains(only, "index") {
+			c11IndexGuards(k)
+		}
+		if strings.Contains(only, "nil") {
+			c11NilResults(k)
+		}
+		if strings.Contains(only, "control") {
+			c11Control(c)
+		}
+		return
+	}
 	t0 := time.Now()
 	G := buildC11Graph(k.g)
 	c11T("graph", t0)
@@ -119,6 +136,12 @@ func runC11(c *core.Ctx) {
 	t0 = time.Now()
 	c11TokenLimits(k)
 	c11T("token", t0)
+	t0 = time.Now()
+	c11IndexGuards(k)
+	c11T("index", t0)
+	t0 = time.Now()
+	c11NilResults(k)
+	c11T("nil", t0)
 	t0 = time.Now()
 	c11Control(c)
 	c11T("control", t0)
